@@ -89,6 +89,11 @@ structure Script where
   body  : List Stmt
   /-- the helper globals the script was evaluated with, and what each is bound to -/
   globs : List (String × CallSpec)
+  /-- every other free name of the code (sorted) and what it resolves to in the function's globals:
+      `builtin` (the builtin of that name, bound in the globals), `attr._compat`, `attr.NOTHING`,
+      `unpinned` (not in the globals: falls through to `__builtins__` / whatever the module defines
+      later), `foreign:<type>` (something else, e.g. a global of the class's module) -/
+  free  : List (String × String)
   deriving BEq, Repr, FromJson, ToJson, Inhabited
 
 mutual
@@ -103,7 +108,17 @@ def hasUnknownL : List Stmt → Bool
   | s :: rest => s.hasUnknown || hasUnknownL rest
 end
 
-def Script.hasUnknown (s : Script) : Bool := hasUnknownL s.body
+/-- the bindings under which `execScript` is the meaning of the text -/
+def bindingOk (nb : String × String) : Bool :=
+  nb.2 == "unpinned" ||
+  (match nb.1 with
+   | "_compat" => nb.2 == "attr._compat"
+   | "NOTHING" => nb.2 == "attr.NOTHING"
+   | _ => nb.2 == "builtin")
+
+/-- the script cannot be executed by `execScript`: an untranslated statement, or a free name bound
+    to something `execScript` has no meaning for -/
+def Script.hasUnknown (s : Script) : Bool := hasUnknownL s.body || !s.free.all bindingOk
 
 /-! ### the generator -/
 
@@ -131,12 +146,20 @@ def genName : Option String → NameExpr
   | none => .qualRsplit
   | some ns => .nsName ns
 
+/-- the free names of the emitted code and what `_make_repr_script`'s `globs` pin them to -/
+def genFree (attrs : List Field) : List (String × String) :=
+  if attrs.any (fun a => a.repr != .off && !a.init) then
+    [("AttributeError", "builtin"), ("NOTHING", "attr.NOTHING"), ("_compat", "attr._compat"),
+     ("getattr", "builtin"), ("id", "builtin")]
+  else [("AttributeError", "builtin"), ("_compat", "attr._compat"), ("id", "builtin")]
+
 /-- the script `_make_repr_script(attrs, ns)` emits -/
 def genScript (attrs : List Field) (ns : Option String) : Script :=
   { body :=
       [ .tryAttr [.bindLookup] [.bindNewSelf, .storeCtx] [.ifIn [.retLit "..."] [.addSelf]],
         .tryFinally [.retF (genName ns) (attrs.filterMap genFragIR)] [.removeSelf] ],
-    globs := attrs.filterMap genGlob }
+    globs := attrs.filterMap genGlob,
+    free := genFree attrs }
 
 /-! ### meaning -/
 
